@@ -1,10 +1,10 @@
-(* ---- c03_number.inc.ml: leg c03.number (numeral classification; fragment of the C03 driver, no main here) ----
+(* ---- c03_number.inc.ml: legs c03.number / c03.hexfloat (numeral classification; fragment of the C03 driver, no main) ----
    case  : hex of the number token text
-   answer: <model>\t<spec>\t<classes>
+   answer: <model>\t<spec>\t-
      model   = classify_number (Model/Number.v):  "I <int64>" | "F" | "BAD" | "PANIC index" | "PANIC slice"
      spec    = spec_value (Spec/LuaNumeral.v):     "I <int64>" | "F" | "BAD";  "-" when the text is not num_clean
                (white space, underscore or a leading sign: never a token of the lexer, the grammar says nothing)
-     classes = deviation classes of Model/Number.v true of the lower-cased text *)
+     no deviation classes since fix 8dd49c7 (theorem number_classify_exact: model = spec on every clean text) *)
 let c03n_int64_of_pos (p : positive) : int64 =
   let rec go p = match p with
     | XH -> 1L
@@ -34,11 +34,7 @@ let () = register "c03.number" (fun line ->
       | Some (IntegerValue v) -> "I " ^ c03n_z_s v
       | Some FloatValue -> "F"
       | None -> "BAD" in
-    let t = to_lower (trim_space s) in
-    let cls = List.filter (fun (_, b) -> b)
-        [ ("short_junk", dev_short_junk t); ("hex_one_junk", dev_hex_one_junk t); ("hex_cut", dev_hex_cut t) ] in
-    let cl = if cls = [] then "-" else String.concat "," (List.map fst cls) in
-    m ^ "\t" ^ sp ^ "\t" ^ cl
+    m ^ "\t" ^ sp ^ "\t-"
   | [] -> "BAD-CASE")
 
 (* c03.hexfloat: case = hex of the text handed to parseHexFloat; answer "<re_hex_float> <parse_hex_float ok>".
